@@ -252,6 +252,20 @@ TEST_RE = re.compile(r'^  test_(\w+) \(')
 TID_RE = re.compile(r'^k(\d+)')
 
 
+def _listing(text):
+    got = {}
+    cur = None
+    for ln in text.splitlines():
+        m = LIST_RE.match(ln)
+        if m:
+            cur = m.group(1)
+            continue
+        m = TEST_RE.match(ln)
+        if m and cur:
+            got[m.group(1)] = cur
+    return got
+
+
 def run_case(case):
     depth, b, argv = case
     spec, info = build_block(depth, b)
@@ -296,5 +310,17 @@ def run_case(case):
                                    % (ch, info[tid][0], info[tid][1], got.get(tid), want.get(tid), argv)})
     if res.trace:
         viol.append({'clause': 'list_mode_ran_code', 'sig': sig, 'detail': str(res.trace[:3])})
+    if argv and b == 0:
+        # the same options given as the wrapper script's DEFAULTS select the
+        # same tests; and defaults are overridden by the command line
+        r2 = runrt.run_world(spec, ['--list-tests'], probe=False, defaults=list(argv))
+        r3 = runrt.run_world(spec, ['--list-tests'] + list(argv), probe=False,
+                             defaults=['--at-level', '1', '--layer', '.'] if '--layer' not in argv and '--only-level' not in argv and '--all' not in argv and not any(a.startswith('--at-level') for a in argv) else [])
+        for rr, what in ((r2, 'as defaults'), (r3, 'over neutral defaults')):
+            if rr.escaped:
+                viol.append({'clause': 'run_aborted', 'sig': dict(sig, via=what), 'detail': rr.escaped_tb})
+            elif _listing(rr.text) != got:
+                viol.append({'clause': 'defaults_and_arguments_disagree', 'sig': dict(sig, via=what),
+                             'detail': 'options %s %s select a different set than on the command line' % (argv, what)})
     return {'evals': len(info), 'nontrivial': sum(1 for v in info.values() if v[2]),
             'violations': viol, 'outcome': (len(got) > 0)}
